@@ -5,6 +5,7 @@ their current value (cond_err, ext_drift, conditioning positions/values).  A ref
 resets an explicitly given measurement error to the model nugget changes the kriging system: the
 next field differs from the one of a freshly built object with the user's settings."""
 from gsvc.contract import contract
+from gsvc import symrun
 from contracts.c07 import P, VQ, FN_COH, _params, _q, start, finish, arr
 
 
@@ -117,3 +118,91 @@ def delete_fields(ctx, n, select):
     ctx.ensure("field_names=remaining", list(fld.field_names) == keep)
     ctx.ensure("deleted-attributes-gone", not any(hasattr(fld, nm) for nm in gone))
     ctx.ensure("remaining-fields-untouched", all(fld[nm] is vals[nm] for nm in keep))
+
+
+# --- the caller edits ITS position array in place between two calls ------------------------------------------------
+@contract(P, "CondSRF.__call__/caller-edits-its-position-array-in-place",
+          params=[{"cls": c, "mesh": me, "dim": d} for c in ("CondSRF", "Krige", "SRF") for me in ("unstructured", "structured")
+                  for d in (1, 2)],
+          functions=["field/base.py:Field.pos", "field/base.py:Field.set_pos", "field/base.py:_pos_equal",
+                     "field/cond_srf.py:CondSRF.__call__"],
+          bounded="native run (the aliasing of a float64 array cannot be seen on symbolic object arrays): 3 points per axis, "
+                  "fixed data, shift of all coordinates by 0.75")
+def caller_edits_positions(ctx, cls, mesh, dim):
+    """history: obj(pos); pos += 0.75 (in place, the caller's own array); obj(pos): the object must not have kept a
+    view of the caller's array -- otherwise the 'positions unchanged?' test compares the array with itself and stale
+    kriging results are reused.  Expected: the results of a fresh object at the new positions."""
+    import numpy as np
+    import gstools as gs
+    with symrun.native():
+        m = gs.Gaussian(dim=dim, len_scale=2.0, var=1.3)
+        cpos = [[0.0, 1.0, 3.0], [0.5, 2.0, 1.0]][:dim]
+        cval = [1.0, 2.0, 0.5]
+
+        def mk():
+            if cls == "SRF":
+                return gs.SRF(m, seed=3, mode_no=8)
+            k = gs.krige.Ordinary(m, cpos, cval)
+            return k if cls == "Krige" else gs.CondSRF(k, seed=3, mode_no=8)
+
+        def run(o, p):
+            r = o(p, mesh_type=mesh)
+            return np.array(r[0] if isinstance(r, tuple) else r, dtype=float)
+
+        def positions():
+            if mesh == "unstructured":
+                return np.array([[0.5, 1.5, 2.5], [0.25, 0.75, 1.25]][:dim], dtype=float)
+            return tuple(np.array(a, dtype=float) for a in ([0.5, 1.5, 2.5], [0.25, 0.75][:2])[:dim])
+
+        obj = mk()
+        pos = positions()
+        first = run(obj, pos)
+        before = first.copy()
+        if mesh == "unstructured":
+            pos += 0.75
+        else:
+            for a in pos:
+                a += 0.75
+        second = run(obj, pos)
+        fresh = run(mk(), positions() if False else (pos.copy() if mesh == "unstructured" else tuple(a.copy() for a in pos)))
+        ok_second = second.shape == fresh.shape and bool(np.allclose(second, fresh, rtol=1e-10, atol=1e-12))
+        ok_first = bool(np.array_equal(first, before))
+    ctx.ensure("second-call=fresh-object-at-the-edited-positions", ok_second)
+    ctx.ensure("first-result-not-altered", ok_first)
+
+
+@contract(P, "CondSRF.__call__[custom-store-names]/no-stale-raw-kriging-field-under-an-old-name",
+          params={"variant": ["simple", "ordinary"], "change": ["values", "model-len_scale"]},
+          functions=["field/cond_srf.py:CondSRF.__call__", "krige/base.py:Krige.set_condition"],
+          bounded="native run: 3 conditioning points, 4 targets, three generations with the raw kriging field stored under "
+                  "two different names")
+def custom_store_names(ctx, variant, change):
+    """history: cs(pos, store=[.., .., 'rk1']); <change of the kriging setup>; cs(store=[.., .., 'rk2']);
+    cs(store=[.., .., 'rk1']): the third call must not reuse the raw kriging field stored under 'rk1' BEFORE the
+    change (the second call re-created the kriging variance, but not that field)"""
+    import numpy as np
+    import gstools as gs
+    with symrun.native():
+        def mk(vals, ls):
+            m = gs.Gaussian(dim=1, len_scale=ls, var=1.3)
+            cpos = [[0.0, 1.0, 3.0]]
+            k = gs.krige.Simple(m, cpos, vals, mean=0.4) if variant == "simple" else gs.krige.Ordinary(m, cpos, vals)
+            return gs.CondSRF(k, seed=3, mode_no=8)
+        pos = [[0.5, 1.5, 2.5, 3.5]]
+        v1, v2 = [1.0, 2.0, 0.5], [0.2, -1.0, 1.5]
+        cs = mk(v1, 2.0)
+        cs(pos, store=[True, True, "rk1"])
+        if change == "values":
+            cs.krige.set_condition(cond_val=v2)
+            want_obj = mk(v2, 2.0)
+        else:
+            cs.model.len_scale = 0.7
+            cs.krige.set_condition()
+            want_obj = mk(v1, 0.7)
+        cs(store=[True, True, "rk2"], seed=4)
+        got = np.array(cs(store=[True, True, "rk1"], seed=5), dtype=float)
+        want = np.array(want_obj(pos, seed=5), dtype=float)
+        ok = got.shape == want.shape and bool(np.allclose(got, want, rtol=1e-10, atol=1e-12))
+        ok_raw = bool(np.allclose(cs["rk1"], want_obj["raw_krige"], rtol=1e-10, atol=1e-12))
+    ctx.ensure("third-generation=fresh-object-with-the-current-setup", ok)
+    ctx.ensure("stored-raw-kriging-field-is-the-current-one", ok_raw)
